@@ -24,6 +24,7 @@ func init() {
 }
 
 func runC06(c *eng.Ctx) {
+	defer runC06Wait(c)
 	p := c.P
 	// R1 truncateMemory protocol
 	{
